@@ -562,6 +562,9 @@ class ExprMixin:
             t = self.truth(v, st)
             return (not t) if isinstance(t, bool) else z3.Not(t)
         if isinstance(node.op, ast.USub):
+            if isinstance(v, Obj):
+                f = z3.Function('objop_USub_Ref', Ref, Ref)
+                return Obj(f(v.ref), v.cls, v.kind, v.elem, v.ndim)
             if isinstance(v, (int, float)) and not isinstance(v, bool):
                 return -v
             if is_fp(v):
